@@ -84,6 +84,13 @@ Fixpoint enum_fill (strict empty_null : bool) (vals : list bytes) (cells : list 
         end
   end.
 
+(* NewFactory rejects a declaration that lists a value twice *)
+Fixpoint nodup_values (l : list bytes) : bool :=
+  match l with
+  | [] => true
+  | x :: t => negb (existsb (bytes_eqb x) t) && nodup_values t
+  end.
+
 Definition enum_cell (vals : list bytes) (rank : nat) : outcome (option bytes) :=
   if Nat.eqb rank enum_max_cardinality then Ok None
   else do v <- idx vals rank; Ok (Some v).
@@ -120,6 +127,7 @@ Definition column_to_data (empty_null : bool) (dt : dtype) (enum_vals : option (
           | None, DEnum =>
               let values := match enum_vals with Some v => v | None => [] end in
               if Nat.ltb enum_max_cardinality (length values) then Fail
+              else if negb (nodup_values values) then Fail
               else
                 do vr <- enum_fill (Nat.ltb 0 (length values)) empty_null values cells [];
                 do cs <- omap (enum_cell (fst vr)) (snd vr);
